@@ -121,7 +121,7 @@ const NON_MOVES: [Action; 6] = [
 /// Roots of the exhaustive sequences: (label, FEN, prefix moves, alphabet moves, full
 /// non-move alphabet?).  Roots with a prefix use the reduced non-move alphabet
 /// {offer:w, accept, decline, resign:b} to keep the replayed prefixes affordable.
-const ROOTS: [(&str, &str, &[&str], &[&str], bool); 23] = [
+const ROOTS: [(&str, &str, &[&str], &[&str], bool); 27] = [
     ("start", gen::START_FEN, &[], &["e2e4", "e7e5", "Ng1f3"], true),
     ("mate_w", "6k1/5ppp/8/8/8/8/8/R3K3 w Q - 0 1", &[], &["Ra1a8", "Ke1e2", "O-O-O", "Ra1b2"], true),
     ("mate_b", "r3k3/8/8/8/8/8/5PPP/6K1 b q - 0 1", &[], &["Ra8a1", "Ke8e7", "O-O-O", "Kg1f1"], true),
@@ -194,6 +194,24 @@ const ROOTS: [(&str, &str, &[&str], &[&str], bool); 23] = [
         &["Nb4d3", "Nb4c2", "e7e5", "c2c3"],
         false,
     ),
+    // a position with an en-passant right and the same placement without it are different positions (repetition counting)
+    (
+        "ep_then_shuffle",
+        "4k3/8/8/8/3p4/8/4P3/4K3 w - - 0 1",
+        &["e2e4", "Ke8d8", "Ke1d1", "Kd8e8", "Kd1e1", "Ke8d8", "Ke1d1", "Kd8e8"],
+        &["Kd1e1", "Kd1d2", "d4e3"],
+        false,
+    ),
+    (
+        "ep_then_shuffle_b",
+        "4k3/4p3/8/3P4/8/8/8/4K3 b - - 0 1",
+        &["e7e5", "Ke1d1", "Ke8d8", "Kd1e1", "Kd8e8", "Ke1d1", "Ke8d8", "Kd1e1"],
+        &["Kd8e8", "Kd8d7", "d5e6"],
+        false,
+    ),
+    // en-passant capture discovering a check through the captured pawn's square
+    ("ep_discovers_check_w", "8/4p3/8/R2P3k/8/8/8/4K3 b - - 0 1", &["e7e5"], &["d5e6", "Ra5a6", "Ke1e2", "Kh5h4"], false),
+    ("ep_discovers_check_b", "4k3/8/2b5/8/3p4/8/4P1K1/8 w - - 0 1", &["e2e4"], &["d4e3", "Bc6d7", "Ke8e7", "Kg2g3"], false),
     // castling that gives check / mate (flags of the recorded move)
     ("castle_check", "5k2/8/8/8/8/8/8/4K2R w K - 0 1", &[], &["O-O", "Rh1f1", "Ke1e2", "Kf8e8"], true),
     ("castle_mate", "2rkr3/2p1p3/8/8/8/8/8/R3K3 w Q - 0 1", &[], &["O-O-O", "Ra1d1", "Ke1e2", "Kd8d7"], true),
@@ -374,9 +392,11 @@ pub fn pgn(tier: usize, seed: u64, out: &mut Out) {
     // scripted games first: shapes random play practically never reaches
     //  * three knights that can all reach one square (file+rank disambiguation `Ng4f6+`), game left open / resigned
     //  * a game that ends by itself through threefold repetition (declared draw + result token on import)
-    const SCRIPTS: [(&str, &[&str]); 2] = [
+    const SCRIPTS: [(&str, &[&str]); 3] = [
         ("three_knights", &["h2h4", "g7g5", "h4g5", "h7h6", "g5h6", "a7a6", "h6h7", "a6a5", "h7g8=N", "a5a4", "Nb1c3", "b7b6",
             "Nc3e4", "b6b5", "Ng1f3", "c7c6", "Nf3e5", "c6c5", "Ne5g4", "d7d6", "Ng4f6"]),
+        ("castle_check", &["f2f4", "e7e5", "f4e5", "f7f6", "e5f6", "Ng8h6", "f6g7", "Ke8f7", "g7h8=Q", "Qd8e7", "Ng1h3", "d7d6", "e2e3",
+            "Bc8g4", "Bf1c4", "Bg4e6", "O-O", "Kf7g6", "Bc4e6", "Qe7e6"]),
         ("repetition", &["Ng1f3", "Ng8f6", "Nf3g1", "Nf6g8", "Ng1f3", "Ng8f6", "Nf3g1", "Nf6g8"]),
     ];
     for (name, script) in SCRIPTS.iter() {
